@@ -165,7 +165,7 @@ pub mod p32 {
             return Outcome::skip();
         }
         let got = (P32E2::from_bits(x) + P32E2::from_bits(y)).to_bits() as u64;
-        cover!(got & 1 == 1 && x & 1 == 1 && y & 1 == 1);
+        cover!(x & 1 == 1 && y & 1 == 1 && (DLO == 0 || got & 1 == 1));
         Outcome::eq(got, r::add(32, 2, x, y) as u64)
     }
     pub fn sub_slice<const SAME: bool, const DLO: i32, const DHI: i32, S: Src>(s: &mut S) -> Outcome {
@@ -175,7 +175,7 @@ pub mod p32 {
             return Outcome::skip();
         }
         let got = (P32E2::from_bits(x) - P32E2::from_bits(y)).to_bits() as u64;
-        cover!(got & 1 == 1 && x & 1 == 1 && y & 1 == 1);
+        cover!(x & 1 == 1 && y & 1 == 1 && (DLO == 0 || got & 1 == 1));
         Outcome::eq(got, r::sub(32, 2, x, y) as u64)
     }
     /// zero / NaR operands (the complement of the slices' domain)
@@ -193,8 +193,8 @@ pub mod p32 {
         crate::assume!(s, r::is_real(32, x) && r::is_real(32, y));
         let same = (x ^ y) >> 31 == 0;
         let d = (r::scale_of(32, 2, x) - r::scale_of(32, 2, y)).abs();
-        let in_same = (0..=3).contains(&d) || (4..=15).contains(&d) || (16..=40).contains(&d) || (41..=1000).contains(&d);
-        let in_diff = d == 0 || d == 1 || (2..=7).contains(&d) || (8..=40).contains(&d) || (41..=1000).contains(&d);
+        let in_same = d == 0 || d == 1 || (2..=3).contains(&d) || (4..=7).contains(&d) || (8..=15).contains(&d) || (16..=25).contains(&d) || (26..=40).contains(&d) || (41..=1000).contains(&d);
+        let in_diff = d == 0 || d == 1 || (2..=3).contains(&d) || (4..=7).contains(&d) || (8..=40).contains(&d) || (41..=1000).contains(&d);
         cover!(d == 240);
         Outcome::cond(if same { in_same } else { in_diff })
     }
